@@ -36,6 +36,14 @@ type Flight struct {
 
 func collect(w *sim.World, burstOnly bool) Flight {
 	var f Flight
+	// the first flight proper: everything the client sends before it can have heard from the server and before
+	// its first PTO (pacing may spread the flight over a few milliseconds)
+	firstReply := time.Duration(1 << 62)
+	for _, r := range w.Router.Log {
+		if r.Dir == "s2c" && len(r.Dlv) > 0 && r.Dlv[0] < firstReply {
+			firstReply = r.Dlv[0]
+		}
+	}
 	t0 := time.Duration(-1)
 	for _, r := range w.Router.Log {
 		if r.Dir != "c2s" || r.Forged {
@@ -46,7 +54,7 @@ func collect(w *sim.World, burstOnly bool) Flight {
 		}
 		pkts, _ := r.Pkts.([]*sim.Packet)
 		f.Datagrams = append(f.Datagrams, Datagram{T: r.T, Len: r.Len, Raw: r.Data, Packets: pkts})
-		if r.T == t0 {
+		if r.T < firstReply && r.T < t0+150*time.Millisecond {
 			f.FirstBurst = len(f.Datagrams)
 		}
 	}
